@@ -164,7 +164,7 @@ fn main() {
     };
     for req in reqs {
         // program-side ops belong to the second harness (h_store/c35p); corpus files are shared by prefix
-        let op1 = req.split(' ').nth(1).unwrap_or(""); if op1 == "rolescn" || op1.starts_with("w.") { continue; }
+        let op1 = req.split(' ').nth(1).unwrap_or(""); if op1 == "rolescn" || op1 == "tcupd" || op1.starts_with("w.") { continue; }
         let resp = exec(&req);
         out.stat(&format!("op.{}", req.split(' ').nth(1).unwrap_or("?")));
         out.stat(&format!("resp.{}", resp.split(' ').take(if resp.starts_with("ok") { 1 } else { 2 }).collect::<Vec<_>>().join("")));
